@@ -411,8 +411,8 @@ def to_coq(sc, impl_out):
     exp = []
     for o in snaps:
         live = set(o["live"])
-        exp.append("(%s, %s)" % (cl(coq_obs_order(dict(x, in_live=(x["o"] in live)), rmap) for x in o["orders"]), z(o["tx"][0][1])))
-    tx = impl_out["tx"][0]
+        exp.append("(%s, %s)" % (cl(coq_obs_order(dict(x, in_live=(x["o"] in live)), rmap) for x in o["orders"]), z(sum(c[1] for c in o["tx"]))))      # the model has one counter: all clients of the framework together
+    tx = [sum(c[0] for c in impl_out["tx"]), sum(c[1] for c in impl_out["tx"])]
     aborted = impl_out["error"] is not None
     return ("{| sc_cfg := mkcfg %s %s %s %s %s %s; sc_nstrat := %s; sc_script := %s; sc_markets := %s; sc_events := %s; sc_expect := %s; sc_abort := %s; sc_tx := (%s, %s) |}"
             % (z(lat("place_latency")), z(lat("cancel_latency")), z(lat("update_latency")), z(lat("replace_latency")), cb(cfg.get("isolation", True)), clients,
